@@ -1,5 +1,6 @@
 import CrdtModel.Spec.OrswotSys
 import CrdtModel.Spec.Lattice
+import CrdtModel.Spec.GListSys
 set_option linter.unusedSectionVars false
 /-!
 # C01 — replicas that applied the same ops converge (op-based SEC, causal delivery)
@@ -64,5 +65,12 @@ theorem lwwreg {ν : Type} [DecidableEq ν] (r0 : LWWReg ν α) {U K K' : List (
     (wf : UniqueMarkers r0 U) (h : (lwwSys r0).Reach U s K) (h' : (lwwSys r0).Reach U s' K')
     (e : ∀ o, o ∈ K ↔ o ∈ K') : s = s' := converge (R := lwwSys r0) wf h h' e
 end lattice
+
+section glist
+variable {τ : Type} [LinOrd τ]
+/-- GList: no delivery constraint at all -/
+theorem glist {U K K' : List (GListOp τ)} {s s' : GList τ} (h : glistSys.Reach U s K) (h' : glistSys.Reach U s' K')
+    (e : ∀ o, o ∈ K ↔ o ∈ K') : s = s' := converge (R := glistSys) trivial h h' e
+end glist
 
 end Crdt.C01
